@@ -46,6 +46,7 @@ type Obs struct {
 	WUStream     map[uint32]int64
 	Rst          int
 	GoAway       int
+	Preface      bool   // server side: the client preface arrived intact
 	ReadDone     bool   // the reader goroutine ended
 	ReadErr      string // with this error ("EOF" for a clean close)
 }
@@ -55,7 +56,7 @@ type Obs struct {
 type Endpoint struct {
 	Name string
 	fr   *http2.Framer
-	raw  io.Writer
+	raw  io.ReadWriter
 	wmu  sync.Mutex
 	enc  *hpack.Encoder
 	ebuf bytes.Buffer
@@ -95,6 +96,37 @@ func (e *Endpoint) MarkReadDone(err error) {
 // automatically (errors ignored: the write side may already be dead).
 func (e *Endpoint) Start() {
 	go e.readLoop()
+}
+
+// ClientPreface is the HTTP/2 connection preface.
+const ClientPreface = "PRI * HTTP/2.0\r\n\r\nSM\r\n\r\n"
+
+// StartServer launches the reader goroutine of a server endpoint: it first
+// consumes the 24-byte client preface the relay forwards, then reads frames.
+func (e *Endpoint) StartServer() {
+	go func() {
+		buf := make([]byte, len(ClientPreface))
+		if _, err := io.ReadFull(e.raw, buf); err != nil {
+			e.MarkReadDone(err)
+			return
+		}
+		if string(buf) != ClientPreface {
+			e.MarkReadDone(fmt.Errorf("harness server: unexpected preface %q", buf))
+			return
+		}
+		e.mu.Lock()
+		e.obs.Preface = true
+		e.mu.Unlock()
+		e.readLoop()
+	}()
+}
+
+// WriteRaw writes bytes as they are (preface, garbage).
+func (e *Endpoint) WriteRaw(b []byte) error {
+	e.wmu.Lock()
+	defer e.wmu.Unlock()
+	_, err := e.raw.Write(b)
+	return err
 }
 
 func (e *Endpoint) readLoop() {
